@@ -353,6 +353,18 @@ class FnText:
         self.insert_at(self.st[self.bo].end, '\n' + text + '\n', 'A1 first statement')
         self.log.append({'op': 'A1 insert first statement', 'text': text})
 
+    def add_last_stmt(self, text):
+        """proof text placed before the closing brace of the body (unit-returning functions only:
+        there it is the last statement whatever the order of the statements before it)"""
+        last = self.bc - 1
+        if last > self.bo and self.st[last].text not in (';', '}'):
+            # the body ends in a tail expression: the proof text goes in front of it
+            a, _b = self._stmt_bounds(last, last)
+            self.insert_at(self.st[a].start, '\n' + text + '\n', 'A1 last statement (before the tail expression)')
+        else:
+            self.insert_at(self.st[self.bc].start, '\n' + text + '\n', 'A1 last statement')
+        self.log.append({'op': 'A1 insert last statement', 'text': text})
+
     # --- A1: loops -------------------------------------------------------
     def loops(self):
         out = []
@@ -576,9 +588,15 @@ class FnText:
                     pass
                 k += 1
             return res
-        if param_names(orig_header) != param_names(header):
-            raise ExtractError('closure #%d of %s: parameter names %r differ from annotation %r'
-                               % (ordinal, self.name, param_names(orig_header), param_names(header)))
+        have, want = param_names(orig_header), param_names(header)
+        if have != want:
+            if len(have) != len(want) or len(set(have)) != len(have):
+                raise ExtractError('closure #%d of %s: parameter names %r differ from annotation %r'
+                                   % (ordinal, self.name, have, want))
+            # the parameters were renamed in the code: the annotation follows (same positions)
+            ren = dict(zip(want, have))
+            header = re.sub(r'\b(%s)\b' % '|'.join(re.escape(w) for w in want), lambda m: ren[m.group(1)], header)
+            self.log.append({'op': 'A1 closure annotation follows renamed parameters', 'closure': ordinal, 'renamed': ren})
         body_first = j + 1
         if st[body_first].text == '{':
             self.replace(st[i].start, st[j].end, header + ' ', 'A1 closure signature')
